@@ -196,7 +196,7 @@ Proof. vm_compute. split; reflexivity. Qed.
     the same identifier, and a name never ends the quoted string it is
     written in: a reader that starts at the opening quote stops exactly at the
     closing quote that the renderer wrote, whatever follows. *)
-From Sheens Require Import Corr.ToolsTextCorr Proofs.ToolsTextLink.
+From Sheens Require Import Corr.ToolsTextCorr Proofs.ToolsTextLink Proofs.ToolsTextTie.
 
 Theorem C20_dot_ids_injective : forall a b : string, dot_id a = dot_id b -> a = b.
 Proof. exact dot_id_injective. Qed.
@@ -328,6 +328,42 @@ Theorem C20_text_label_oracle :
      tt_agrees (mk_ttdoc name (dot_html name)) = true).
 Proof. exact (conj tt_label_ok_sound tt_model_label_passes). Qed.
 Print Assumptions C20_text_label_oracle.
+
+(** the three escaping functions are the byte-wise replacement by the tables
+    harness/cmd/genconsts reads, on every run, from the strings.NewReplacer
+    calls in dotID, dotHTML and mermaidText of the tree under test
+    (Gen/Names.v); as functions from bytes to replacements the tables are
+    the ones the theorems above describe: backslash and quote get a
+    backslash, ampersand and angle brackets become entities, hash and quote
+    become Mermaid entity codes, every other byte is copied *)
+Theorem C20_escapes_are_source_tables :
+  (forall s : string, dot_escape s = byte_replace dot_id_escapes s)
+  /\ (forall s : string, dot_html s = byte_replace dot_html_escapes s)
+  /\ (forall s : string, mermaid_text s = byte_replace mermaid_text_escapes s).
+Proof. exact escapes_are_generated_tables. Qed.
+Print Assumptions C20_escapes_are_source_tables.
+
+Theorem C20_source_tables_as_functions :
+  (forall c, lookup_byte dot_id_escapes c =
+             if Ascii.eqb c bslash then Some (String bslash (String bslash EmptyString))
+             else if Ascii.eqb c dquote then Some (String bslash (String dquote EmptyString))
+             else None)
+  /\ (forall c, lookup_byte dot_html_escapes c =
+                if Ascii.eqb c amp then Some "&amp;"%string
+                else if Ascii.eqb c langle then Some "&lt;"%string
+                else if Ascii.eqb c rangle then Some "&gt;"%string
+                else None)
+  /\ (forall c, lookup_byte mermaid_text_escapes c =
+                if Ascii.eqb c hash then Some "#35;"%string
+                else if Ascii.eqb c dquote then Some "#quot;"%string
+                else None).
+Proof. exact (conj dot_id_table (conj dot_html_table mermaid_text_table)). Qed.
+Print Assumptions C20_source_tables_as_functions.
+
+Theorem C20_source_tables_have_distinct_olds :
+  NoDup (map fst dot_id_escapes) /\ NoDup (map fst dot_html_escapes) /\ NoDup (map fst mermaid_text_escapes).
+Proof. exact escape_tables_have_distinct_olds. Qed.
+Print Assumptions C20_source_tables_have_distinct_olds.
 
 (** D55, the code before the repair: the label held the raw name; the name >
     ended it early and the name < never ended it *)
